@@ -3,8 +3,8 @@
    Model: Model/S3Retry.v (request loop of S3ChunkStore.request over the urllib3 Retry counters, _request conversions,
    error_map, _raise_for_status, _DetectTruncation, get_chunk + bucket check, RDB fetch), Model/Jwt.v. *)
 From Coq Require Import ZArith List Bool String.
-From KV Require Import Base.Sx Base.Str Gen.Generated Model.S3Retry Model.S3Session Model.Jwt Proofs.S3RetryP
-  Proofs.S3SessionP Proofs.JwtP.
+From KV Require Import Base.Sx Base.Str Gen.Generated Model.S3Retry Model.S3Session Model.Jwt Model.JwtHist Model.S3Url
+  Proofs.S3RetryP Proofs.S3SessionP Proofs.JwtP Proofs.JwtHistP Proofs.S3UrlP.
 Import ListNotations.
 Open Scope Z_scope.
 
@@ -272,3 +272,242 @@ Example C09_session_examples :
                                       mkOp 0 BFull segs 100 [Stall 0; Reset 3] []]))%nat = [Ok 224%nat; Ok 224%nat; Err Glitch].
 Proof. vm_compute. repeat split; reflexivity. Qed.
 Print Assumptions C09_session_examples.
+
+(* =====================================================================================
+   TOKENS OVER TIME (Model/JwtHist.v).  One process uses token strings again and again while the clock moves on:
+   decode_jwt(tok), S3ChunkStore(url, token=tok) + a request (a chunk, or the RDB file of TelstateDataSource.from_url),
+   further requests on a store object constructed earlier.  The model threads through the history whatever a validating
+   layer could remember (memo of decoded tokens per Generated.jwt_decode_memo, the store objects alive) and interprets
+   decode_jwt / _BearerAuth.__init__ / __call__ statement by statement in source order; the spec has no state.
+   ===================================================================================== *)
+
+(* the statements of decode_jwt in source order, with the comparison operator and constants re-translated from the
+   source, are the chain of checks of Model/Jwt.v *)
+Theorem C09_decode_jwt_statements : forall t now,
+  run_decode jwt_decode_steps t now d0 = match decode_jwt t now with None => DOk | Some r => DRej r end.
+Proof. exact run_decode_std. Qed.
+Print Assumptions C09_decode_jwt_statements.
+
+(* ---- MAIN (token histories): for every configuration, every table of tokens and EVERY history of uses at ANY clock
+   values (the clock may jump, stand still or run backwards), each use returns - and sends exactly the requests - that
+   the stateless spec says for the token, the clock of that moment, the URL and the path: rejected with zero requests
+   if the token is bad at that moment, the counting spec of the request otherwise.  A request on a store object
+   constructed earlier is judged by the token the store was constructed with and the clock of the REQUEST. ---- *)
+Theorem C09_token_history : forall cfg toks us,
+  wf_retry (c_retry cfg) = true -> Forall wf_use us ->
+  fst (run_hist cfg toks p0 us) = spec_hist cfg toks [] us.
+Proof. exact hist_is_spec. Qed.
+Print Assumptions C09_token_history.
+
+(* ---- NO MEMORY of earlier decisions: whatever happened before (any past `pre`, which may have used the same token
+   string while it was still valid), decode_jwt / store construction / the RDB download return what they return in a
+   fresh process: a function of the token, the clock, the URL and the path only.  No hypotheses. ---- *)
+Theorem C09_token_no_memory : forall cfg toks pre u post,
+  is_call u = false ->
+  nth (List.length pre) (fst (run_hist cfg toks p0 (pre ++ u :: post))) (Err Raw, O) =
+  fst (fst (use_step jwt_decode_memo cfg toks p0 u)).
+Proof. intros. apply no_memory. assumption. Qed.
+Print Assumptions C09_token_no_memory.
+
+Theorem C09_token_past_irrelevant : forall cfg toks pre pre' u post post',
+  is_call u = false ->
+  nth (List.length pre) (fst (run_hist cfg toks p0 (pre ++ u :: post))) (Err Raw, O) =
+  nth (List.length pre') (fst (run_hist cfg toks p0 (pre' ++ u :: post'))) (Err Raw, O).
+Proof. intros. rewrite !no_memory by assumption. reflexivity. Qed.
+Print Assumptions C09_token_past_irrelevant.
+
+(* ---- an expired token never reaches the wire: in ANY history, a use whose token (its own, or the one of the store
+   object it calls) has an expiry time that the clock has passed is refused with InvalidToken / AuthorisationFailed and
+   ZERO requests - also when the same token string was accepted earlier, and also on a store object that was
+   constructed while the token was still valid.  No hypotheses on configuration, faults or the past. ---- *)
+Theorem C09_expired_never_sent : forall cfg toks pre u post t,
+  used_token toks (snd (run_hist cfg toks p0 pre)) u = Some t -> expired_at t (u_now u) = true ->
+  exists e, nth (List.length pre) (fst (run_hist cfg toks p0 (pre ++ u :: post))) (Ok O, O) = (Err e, O) /\
+            (e = InvalidTok \/ e = Auth).
+Proof. intros. eapply expired_never_sent; eassumption. Qed.
+Print Assumptions C09_expired_never_sent.
+
+(* the store objects alive after any history are exactly those constructed with a token that was acceptable then *)
+Theorem C09_stores_are_accepted_opens : forall cfg toks us,
+  wf_retry (c_retry cfg) = true -> Forall wf_use us ->
+  p_stores (snd (run_hist cfg toks p0 us)) =
+  map u_tok (filter (fun u => match u_entry u with
+                              | EOpen => negb (open_bad (u_scheme u) (u_host u) (tok toks (u_tok u)) (u_now u))
+                              | _ => false end) us).
+Proof. exact stores_are_accepted_opens. Qed.
+Print Assumptions C09_stores_are_accepted_opens.
+
+(* ---- laws of the clock: what decode_jwt refuses it refuses at every later moment (no resurrection); the clock enters
+   through the expiry comparison only; a token is good up to and including its expiry second (time.time() > exp, the
+   operator re-translated from the source) ---- *)
+Theorem C09_token_no_resurrection : forall t now now', now <= now' ->
+  decode_jwt t now <> None -> decode_jwt t now' <> None.
+Proof. exact decode_no_resurrection. Qed.
+Print Assumptions C09_token_no_resurrection.
+
+Theorem C09_clock_only_via_expiry : forall t now now',
+  expired_at t now = expired_at t now' -> decode_jwt t now = decode_jwt t now'.
+Proof. exact decode_time_only_exp. Qed.
+Print Assumptions C09_clock_only_via_expiry.
+
+Theorem C09_expiry_boundary : forall t v now, t_exp t = ExpInt v ->
+  (expired_at t now = true <-> v < now) /\ cmpZ jwt_exp_cmp now v = (now >? v).
+Proof. intros t v now H. split; [exact (expiry_boundary t v now H)|reflexivity]. Qed.
+Print Assumptions C09_expiry_boundary.
+
+(* satisfiable, and the histories that matter: token "bkt*" expiring at 1000 used at 900, 1000, 1001: accepted, accepted
+   (boundary), refused without a request; the store object constructed at 900 refuses at 1001 as well; decode_jwt refuses
+   at 1001 and - the clock having been set back - accepts at 999 again.  Last line: what a memo of successful decodes
+   (functools.lru_cache) would do with [open at 900; open at 1001] - the expired token would be sent. *)
+Example C09_token_history_examples :
+  let cfg := default_config 2 2 in
+  let segs := [8; 2; 118; 96]%nat in
+  let tA := mkToken 3 true "ES256" 86 true (ExpInt 1000) true [[98; 107; 116]] in
+  let u e now := mkUse e 0%nat now "https" "archive" [98; 107; 116; 47; 97] (PChunk segs) 224%nat [] in
+  let ok := (Ok 224%nat, 1%nat) in
+  let refused := (Err InvalidTok, 0%nat) in
+  fst (run_hist cfg [tA] p0 [u EOpen 900; u EOpen 1000; u EOpen 1001; u (ECall 0%nat) 1001; u EDecode 1001; u EDecode 999])
+    = [ok; ok; refused; refused; refused; (Ok 0%nat, 0%nat)] /\
+  fst (run_hist_p (Some 32) cfg [tA] p0 [u EOpen 900; u EOpen 1001]) = [ok; ok] /\
+  fst (run_hist_p None cfg [tA] p0 [u EOpen 900; u EOpen 1001]) = [ok; refused].
+Proof. vm_compute. repeat split; reflexivity. Qed.
+Print Assumptions C09_token_history_examples.
+
+(* =====================================================================================
+   THE OTHER REQUEST SITES OF THE PUBLIC API: put_chunk, is_complete, mark_complete.  They go through the same retry
+   loop with the default `process` and are not streamed; S3 answers a PUT - and the GET of the empty `complete` marker -
+   without a body, so no answer can lose part of its body and the loop is the counting spec.
+   ===================================================================================== *)
+
+(* ---- put_chunk: for every configuration and every fault sequence the chunk is stored (Ok) iff the read faults (reset /
+   close / stall before the answer), the status faults and their sum fit the budgets, else S3ServerGlitch; permanent
+   statuses classified at once; exactly the requests of the counting spec ---- *)
+Theorem C09_put_chunk : forall cfg fs,
+  wf_retry (c_retry cfg) = true -> Forall (fun o => wf_outcome o = true) fs ->
+  put_chunk cfg O fs = spec_request cfg O fs.
+Proof. exact put_chunk_is_spec. Qed.
+Print Assumptions C09_put_chunk.
+
+(* answers WITH a body of len bytes to a request that is not streamed (bucket listing; hypothetically a PUT or marker
+   answer with content): the counting spec under the guard that no answer loses part of its body.  What is missing:
+   a body fault after retries inside the adapter is retried with the Retry object from before the request
+   (Example C09_listing_budget_not_carried is the refutation of the unguarded statement). *)
+Theorem C09_unstreamed_request_partial : forall cfg len fs,
+  wf_retry (c_retry cfg) = true -> Forall (fun o => wf_outcome o = true) fs ->
+  forallb (no_body_fault len) fs = true ->
+  request cfg PListing len [] fs = spec_request cfg len fs.
+Proof. exact request_nb_is_spec. Qed.
+Print Assumptions C09_unstreamed_request_partial.
+
+(* ---- is_complete: True on a 200 answer, False on a 404 AND when the transient faults do not fit the budget (both
+   exceptions derive from ChunkNotFound: table re-translated from the source), every other failure is raised; the
+   requests of the counting spec; no bucket listing is ever requested (a 404 is not checked against the bucket) ---- *)
+Theorem C09_is_complete : forall cfg fs,
+  wf_retry (c_retry cfg) = true -> Forall (fun o => wf_outcome o = true) fs ->
+  is_complete cfg O fs = (spec_is_complete cfg O fs, spec_requests (c_forcelist cfg) O (c_retry cfg) fs).
+Proof. exact is_complete_is_spec. Qed.
+Print Assumptions C09_is_complete.
+
+Theorem C09_is_complete_classes :
+  caught_by_is_complete NotFound = true /\ caught_by_is_complete Glitch = true /\
+  caught_by_is_complete Auth = false /\ caught_by_is_complete Unavail = false /\
+  caught_by_is_complete InvalidTok = false /\ caught_by_is_complete Raw = false.
+Proof. exact is_complete_table. Qed.
+Print Assumptions C09_is_complete_classes.
+
+(* ---- mark_complete: the marker object is written only after the bucket request succeeded or was answered 409 (the
+   bucket exists already); a failed bucket request is reported as it is and nothing else is sent; the marker request is
+   the counting spec with the full budget on what is left of the fault sequence ---- *)
+Theorem C09_mark_complete_bucket_failed : forall cfg fs e,
+  fst (request cfg PListing O s3_create_bucket_ignored fs) = Err e ->
+  mark_complete cfg fs = (Err e, snd (request cfg PListing O s3_create_bucket_ignored fs), O).
+Proof. exact mark_complete_bucket_failed. Qed.
+Print Assumptions C09_mark_complete_bucket_failed.
+
+Theorem C09_mark_complete_bucket_ok : forall cfg fs d,
+  wf_retry (c_retry cfg) = true -> Forall (fun o => wf_outcome o = true) fs ->
+  fst (request cfg PListing O s3_create_bucket_ignored fs) = Ok d ->
+  let nb := snd (request cfg PListing O s3_create_bucket_ignored fs) in
+  mark_complete cfg fs =
+  (spec_result (c_forcelist cfg) O (c_retry cfg) (skipn nb fs), nb,
+   spec_requests (c_forcelist cfg) O (c_retry cfg) (skipn nb fs)).
+Proof. exact mark_complete_bucket_ok. Qed.
+Print Assumptions C09_mark_complete_bucket_ok.
+
+(* the only status the bucket step overlooks is 409 (list re-translated from the source) *)
+Theorem C09_mark_complete : forall cfg fs, mark_complete cfg fs = spec_mark_complete cfg fs.
+Proof. exact mark_complete_is_spec. Qed.
+Print Assumptions C09_mark_complete.
+
+Theorem C09_create_bucket_409 : forall cfg rest, memZ 409 (c_forcelist cfg) = false ->
+  request cfg PListing O s3_create_bucket_ignored (Status 409 :: rest) = (Ok O, 1%nat).
+Proof. exact create_bucket_409. Qed.
+Print Assumptions C09_create_bucket_409.
+
+Example C09_other_sites_examples :
+  let cfg := default_config 2 2 in
+  put_chunk cfg O [Status 503; HFault HReset] = (Ok O, 3%nat) /\
+  put_chunk cfg O [HFault HReset; HFault HClose; HFault HStall] = (Err Glitch, 3%nat) /\
+  put_chunk cfg O [Status 403; Status 503] = (Err Auth, 1%nat) /\
+  is_complete cfg O [Status 404] = (CFalse, 1%nat) /\
+  is_complete cfg O [Status 503; Status 500] = (CTrue, 3%nat) /\
+  is_complete cfg O [HFault HReset; HFault HReset; HFault HReset] = (CFalse, 3%nat) /\
+  is_complete cfg O [Status 401] = (CRaise Auth, 1%nat) /\
+  mark_complete cfg [Status 409; Status 503] = (Ok O, 1%nat, 2%nat) /\
+  mark_complete cfg [Status 503; Status 403; Status 503] = (Err Auth, 2%nat, 0%nat) /\
+  mark_complete cfg [Status 400] = (Err Unavail, 1%nat, 0%nat).
+Proof. vm_compute. repeat split; reflexivity. Qed.
+Print Assumptions C09_other_sites_examples.
+
+(* ---- the `retries` argument of S3ChunkStore: one number stands for connect AND read retries, the status budget is 5,
+   urllib3's total is 10, the forcelist is _DEFAULT_SERVER_GLITCHES; the default store is retries = 2 ---- *)
+Theorem C09_retries_argument : forall n, 0 <= n ->
+  let cfg := store_config (RInt n) in
+  r_read (c_retry cfg) = Some n /\ r_connect (c_retry cfg) = Some n /\ r_status (c_retry cfg) = Some 5 /\
+  r_total (c_retry cfg) = Some 10 /\ c_forcelist cfg = [500; 502; 503; 504] /\ wf_retry (c_retry cfg) = true.
+Proof. exact store_config_int. Qed.
+Print Assumptions C09_retries_argument.
+
+(* what a user of S3ChunkStore(url) can rely on: the chunk arrives after ANY run of transient faults with at most 2
+   read faults (cut / reset / stalled bodies, lost answers) and at most 5 statuses out of 500/502/503/504 *)
+Theorem C09_default_store_budget : forall segs pre,
+  forallb (transient [500; 502; 503; 504] (total segs)) pre = true ->
+  count (read_fault (total segs)) pre <= 2 -> count (status_fault [500; 502; 503; 504]) pre <= 5 ->
+  request default_store (PChunk segs) (total segs) [] pre = (Ok (total segs), S (List.length pre)).
+Proof. exact default_store_budget. Qed.
+Print Assumptions C09_default_store_budget.
+
+(* =====================================================================================
+   WHICH OBJECT IS ASKED FOR (Model/S3Url.v): make_url / _normalise_bucket_name / _bucket_url on paths.
+   ===================================================================================== *)
+
+(* ---- never an ALTERED array by way of another object: for every bucket name and every key (array path and chunk
+   index, which are full of underscores) only the bucket part changes - underscores to dashes - and the key reaches the
+   server exactly as it is ---- *)
+Theorem C09_object_key_untouched : forall b k c t, b = c :: t -> nosep b = true ->
+  normalise (s3_path_sep :: b ++ s3_path_sep :: k) = s3_path_sep :: dash b ++ s3_path_sep :: k.
+Proof. exact key_untouched. Qed.
+Print Assumptions C09_object_key_untouched.
+
+(* ---- the bucket that is listed (and cached) after a 404 is the bucket of the chunk, in the form the server knows it:
+   no underscores; normalising twice changes nothing; a bucket without underscores is left alone ---- *)
+Theorem C09_bucket_of_request : forall p,
+  bucket_of (normalise p) = dash (bucket_of p) /\
+  forallb (fun c => negb (c =? s3_bucket_from)) (bucket_of (normalise p)) = true /\
+  normalise (normalise p) = normalise p /\
+  snd (split1 (lstrip_sep (normalise p))) = snd (split1 (lstrip_sep p)).
+Proof.
+  intro p. split; [apply bucket_of_normalise|]. split; [apply bucket_no_underscore|].
+  split; [apply normalise_idem|apply rest_of_normalise].
+Qed.
+Print Assumptions C09_bucket_of_request.
+
+Example C09_url_examples :
+  let s := codes_of_string in
+  chunk_path (s "1557528200_sdp_l0/correlator_data/00012_00000_00512"%string) =
+    s "/1557528200-sdp-l0/correlator_data/00012_00000_00512.npy"%string /\
+  bucket_of (chunk_path (s "1557528200_sdp_l0/correlator_data/00012_00000_00512"%string)) = s "1557528200-sdp-l0"%string /\
+  normalise (s "//b_1"%string) = s "/b-1"%string /\ normalise (s ""%string) = s "/"%string /\
+  s3_path_sep = 47 /\ s3_bucket_from = 95 /\ s3_bucket_to = 45 /\ s3_chunk_extension = ".npy"%string.
+Proof. vm_compute. repeat split; reflexivity. Qed.
+Print Assumptions C09_url_examples.
